@@ -19,6 +19,14 @@ def classes_of(rec):
         c.append("worker_not_ready")
     if rec.mon.n_deferrals["TASK_NOT_READY"]:
         c.append("task_not_ready")
+    if rec.mon.n_deferrals.get("JOIN_WAITS_WITH_CANCELLED_PARENT"):
+        c.append("join_waits_with_cancelled_parent")
+    st_ = getattr(rec.world.get("policy"), "stats", None) if isinstance(getattr(rec, "world", None), dict) else None
+    if st_:
+        if st_["virtual"]:
+            c.append("planned_unreleased_task")
+        if st_["batch_join_later"]:
+            c.append("batch_member_planned_later")
     if rec.mon.max_resident >= 2:
         c.append("shared_worker")
     if spec["flags"].get("loop_timeout") is not None:
@@ -26,9 +34,20 @@ def classes_of(rec):
     return sorted(set(c))
 
 
-def sim_execute(judges, nontrivial, hooks=None, prepare=None, extra=None, judge_partial=True):
+def sim_execute(judges, nontrivial, hooks=None, prepare=None, extra=None, judge_partial=True, planner=False, max_steps=4000):
     def execute(spec):
-        rec = simrun.run_world(spec, hooks=hooks, prepare=prepare)
+        if planner:
+            from pbt import solvercap
+
+            solvercap.install()
+            with solvercap.quiet():
+                rec = simrun.run_world(spec, hooks=hooks, prepare=prepare, max_steps=max_steps)
+            if rec.exception and solvercap.is_licence_error(Exception(rec.exception[1])):
+                res = CaseResult()
+                res.discard = "solver_licence_limit"
+                return res
+        else:
+            rec = simrun.run_world(spec, hooks=hooks, prepare=prepare, max_steps=max_steps)
         res = CaseResult()
         res.classes = classes_of(rec)
         res.counters = {
